@@ -590,7 +590,32 @@ class Models:
         if op == "%" and is_strlike(a):
             if all_concrete(a, b):
                 return native(lambda: a % b)
-            raise Unsupported("% formatting with symbolic operands")
+            if not isinstance(a, str):
+                raise Unsupported("% formatting with a symbolic format string")
+            vals = list(b) if isinstance(b, tuple) else [b]
+            out, i, k = [], 0, 0
+            while i < len(a):
+                if a[i] == "%" and i + 1 < len(a):
+                    c = a[i + 1]
+                    if c == "%":
+                        out.append("%")
+                    elif c in "srd":
+                        if k >= len(vals):
+                            pyraise(TypeError, "not enough arguments for format string")
+                        r = self.py_repr(W, vals[k]) if c == "r" else self.py_str(W, vals[k])
+                        if isinstance(r, Redirect):
+                            raise Unsupported("% formatting of an object with __str__")
+                        out.extend(chars(r))
+                        k += 1
+                    else:
+                        raise Unsupported(f"% conversion {c!r} with symbolic operands")
+                    i += 2
+                else:
+                    out.append(a[i])
+                    i += 1
+            if k != len(vals):
+                pyraise(TypeError, "not all arguments converted during string formatting")
+            return mk(out)
         if isinstance(a, (SInt,)) or isinstance(b, (SInt,)):
             if isinstance(a, (int, SInt)) and isinstance(b, (int, SInt)):
                 if op in ("+", "-", "*"):
@@ -869,6 +894,11 @@ class Models:
         return raw
 
     def foreign_attr(self, W, obj, name, raw):
+        if isinstance(obj, re.Pattern):
+            if name in ("finditer", "match", "search", "fullmatch"):
+                return NativeBound(obj, name)
+            if name in ("pattern", "flags", "groups"):
+                return getattr(obj, name)
         m = self.eng.foreign_models.get((type(obj), name))
         if m is None:
             for (k, n), mm in self.eng.foreign_models.items():
@@ -937,6 +967,10 @@ class Models:
         m = self.eng.class_models.get(cls)
         if m is not None:
             return m(self.I, W, args, kwargs)
+        import operator
+        import functools
+        if cls in (operator.itemgetter, operator.attrgetter, functools.partial, re.Pattern) and all_concrete(*[a for a in args if not callable(a)]):
+            return native(cls, *args, **kwargs)
         raise Unsupported(f"constructor of foreign class {cls}")
 
     def _class_models(self):
@@ -1080,6 +1114,9 @@ class Models:
         if isinstance(fn, (types.MethodWrapperType, types.MethodDescriptorType, types.WrapperDescriptorType)):
             raise Unsupported(f"native slot call {fn}")
         import functools
+        import operator
+        if isinstance(fn, (operator.itemgetter, operator.attrgetter)):
+            return native(fn, *args)
         if isinstance(fn, functools._lru_cache_wrapper):
             # cached function: the cache lives in native state; run it natively when nothing symbolic is passed
             if all_concrete(*args) and all_concrete(*kwargs.values()):
@@ -1111,6 +1148,12 @@ class Models:
             return m(self.I, W, obj, args, kwargs)
         if isinstance(obj, logging.Logger):
             return None
+        if isinstance(obj, re.Pattern):
+            from .regex import regex_once, SFindIter
+            flags = obj.flags & ~re.UNICODE
+            if name == "finditer":
+                return SFindIter(obj.pattern, args[0], int(flags))
+            return regex_once(self.I, W, name, obj.pattern, args[0], int(flags))
         if nb.via is not None:
             # super().__init__ etc. resolved on a builtin base
             target = getattr(super(nb.via, obj), name)
@@ -1177,7 +1220,18 @@ class Models:
         def m_is_dataclass(W, a, k):
             return dataclasses.is_dataclass(a[0])
 
-        t = {warnings.warn: noop, re.finditer: m_finditer, dataclasses.is_dataclass: m_is_dataclass}
+        def m_re(kind):
+            def f(W, a, k):
+                from .regex import regex_once
+                flags = a[2] if len(a) > 2 else k.get("flags", 0)
+                return regex_once(M.I, W, kind, a[0], a[1], int(flags))
+            return f
+
+        def m_compile(W, a, k):
+            return native(re.compile, *a, **k)
+
+        t = {warnings.warn: noop, re.finditer: m_finditer, dataclasses.is_dataclass: m_is_dataclass,
+             re.match: m_re("match"), re.search: m_re("search"), re.fullmatch: m_re("fullmatch"), re.compile: m_compile}
         for nm in ("debug", "info", "warning", "error", "critical", "exception", "log"):
             t[getattr(logging, nm)] = noop
         return t
